@@ -492,3 +492,26 @@ def sp_count_is(w, ex, node):
 
 
 SPEC_FUNCS['count_is'] = sp_count_is
+
+
+# --- opaque crypto and transports ------------------------------------------------------------------------------
+SIGF = z3.Function('SIG', IntS, Bytes, Bytes)
+PUBKEYF = z3.Function('PUBKEY', IntS, Bytes)
+
+
+def sp_SIG(w, ex, node):
+    k, d = [ex.eval(a) for a in node.args]
+    return VBytes(SIGF(k.term, d.term), False)
+
+
+def sp_PUBKEY(w, ex, node):
+    (k,) = [ex.eval(a) for a in node.args]
+    return VBytes(PUBKEYF(k.term), False)
+
+
+def sp_istransport(w, ex, node):
+    (t,) = [ex.eval(a) for a in node.args]
+    return VBool(isinstance(t, VObj) and t.cls == 'Transport')
+
+
+SPEC_FUNCS.update({'SIG': sp_SIG, 'PUBKEY': sp_PUBKEY, 'istransport': sp_istransport})
